@@ -1,5 +1,6 @@
 """C03 - response spectra are peak responses with consistent pseudo-spectral relations."""
 import math
+from fractions import Fraction
 
 import numpy as np
 from hypothesis import strategies as st
@@ -16,7 +17,9 @@ PROPERTY = "C03"
 CLAUSES = []
 ASSUMPTIONS = [
     "domain as C01; records are ndarrays (pseudo_response_spectra documents 'array floats'); n <= 1500 (quick <= 500)",
-    "'below 6 time steps': periods within 1e-9 (relative) of 6*dt are ambiguous and accept either branch",
+    "'below 6 time steps' is decided in exact rational arithmetic on the doubles T and dt: a period of exactly six steps (6*dt "
+    "representable) is not below; periods within 8 eps (relative) of 6*dt, where the rounding of dt*6 or T/dt decides, are ambiguous and "
+    "accept either branch (the first version used a 1e-9 band, which hid a '<=' for '<' at exactly six steps)",
     "spectra vs the exact reference use the C01 tolerance on the robust scale, with the 16*eps/(w dt)^3 rounding term for "
     "T/dt >= 1000 (consequence of C01-KF1, recorded under C01); equality with the library's own series is asserted exactly",
     "the exact reference is evaluated for w = 6.2831853/T, the angular frequency the library's series use: C03 relates spectra to "
@@ -42,6 +45,10 @@ def _cases(draw, max_n=None, max_p=8, containers=("ndarray",)):
     # periods straddling 6*dt: mix of a log-uniform family and a family concentrated around 6
     around6 = st.one_of(gen.log_uniform(2.0, 20.0), st.sampled_from([5.999, 6.0, 6.001, 5.5, 6.5]))
     c["ratios"] = draw(st.lists(st.one_of(gen.log_uniform(0.2, 2e4), around6), min_size=1, max_size=max_p))
+    if draw(st.integers(0, 9)) == 3:
+        # a period of EXACTLY six steps (dyadic dt, so that 6*dt is representable): 'below 6 time steps' does not include it
+        c["dt"] = draw(st.sampled_from([1.0, 0.5, 0.25, 0.125, 0.0078125, 2.0]))
+        c["ratios"] = c["ratios"][:max_p - 1] + [6.0]
     if draw(st.integers(0, 4)) == 0:
         # integer-typed periods (python ints / integer ndarray), as the repo's own test passes ([0, 2, 4]): dt chosen so that
         # T/dt stays inside the quantifier
@@ -84,11 +91,20 @@ def _cls(ctx, case, a):
             "int-periods" if case.get("int_periods") else None, "int-periods+lead0" if case.get("int_periods") and case["lead0"] else None)
 
 
-def _band(r):
-    """ambiguous / below / above the 6-step rule."""
-    if abs(r / 6.0 - 1.0) < 1e-9:
+def _band(r, T=None, dt=None):
+    """ambiguous / below / above the 6-step rule.  With the period and the step given, the comparison is made in exact rational
+    arithmetic on the two doubles: a period of exactly six steps (6*dt representable) is 'not below'; only periods within a few ulp
+    of 6*dt - where rounding of the product or the quotient decides - are ambiguous."""
+    if T is None:
+        if abs(r / 6.0 - 1.0) < 1e-9:
+            return "amb"
+        return "below" if r < 6 else "above"
+    t, six = Fraction(float(T)), 6 * Fraction(float(dt))
+    if t == six and Fraction(float(dt) * 6.0) == six:
+        return "above"
+    if abs(t - six) <= Fraction(8 * np.finfo(float).eps) * six:
         return "amb"
-    return "below" if r < 6 else "above"
+    return "below" if t < six else "above"
 
 
 @clause(CLAUSES, "sd-is-peak", _cases(), quick=700, thorough=1800,
@@ -119,7 +135,7 @@ def sd_is_peak(case, ctx):
     pga = float(np.max(np.abs(a)))
     amax = np.max(np.abs(ra), axis=1)
     for j in range(len(T)):
-        b = _band(r[j])
+        b = _band(r[j], T[j], dt)
         if b == "amb":
             ctx.amb()
             ctx.check(tsa[s + j] in (amax[s + j], pga), "true S_a at T=6dt is neither max|a_total| nor PGA")
@@ -169,14 +185,15 @@ def pseudo_relations(case, ctx):
         if s:
             ctx.check(sd[0] == 0 and sa_[0] == pga, "%s at T=0: S_d=%r S_a=%r (PGA %r)" % (fname, sd[0], sa_[0], pga))
         for j in range(len(T)):
-            b = _band(r[j])
+            b = _band(r[j], T[j], dt)
             if b == "below":
                 ctx.check(sa_[s + j] == pga, "%s S_a[%d]=%r != PGA=%r for T/dt=%r" % (fname, j, sa_[s + j], pga, r[j]))
         if fname.startswith("pseudo"):
             w = 2 * np.pi / T
             ctx.close(sv_[s:], w * sd[s:], 1e-12 * w * sd[s:], "pseudo S_v vs w*S_d")
             for j in range(len(T)):
-                b = _band(r[j])
+                b = _band(r[j], T[j], dt)
+                ctx.cls("T==6dt-exactly" if Fraction(float(T[j])) == 6 * Fraction(float(dt)) else None)
                 want = w[j] ** 2 * sd[s + j]
                 if b == "above":
                     ctx.check(abs(sa_[s + j] - want) <= 1e-12 * want + core.TINY, "pseudo S_a[%d]=%r != w^2 S_d=%r (T/dt=%r)" % (j, sa_[s + j], want, r[j]))
@@ -286,7 +303,7 @@ def object_api(case, ctx):
         want = w[j] ** 2 * sd[s + j]
         is_pseudo = abs(sa[s + j] - want) <= 1e-12 * want + core.TINY
         rj = T[j] / dt
-        if rj >= 6 * (1 + 1e-9):
+        if _band(rj, T[j], dt) == "above":
             ctx.check(is_pseudo, "object S_a[%d]=%r != w^2 S_d=%r although T >= 6 dt" % (j, sa[s + j], want))
         else:
             ctx.check(is_pseudo or sa[s + j] == pga, "object S_a[%d]=%r is neither w^2 S_d=%r nor PGA=%r" % (j, sa[s + j], want, pga))
